@@ -577,16 +577,65 @@ def r86(e: Engine, rep: Report):
             srcs = [s for s in g.of_kind('stmt')
                     if isinstance(s.ast, ast.Assign) and any(
                         isinstance(t, ast.Name) and t.id == a.id
-                        for t in s.ast.targets) and s.frame is afr]
+                        for t0 in s.ast.targets for t in (
+                            t0.elts if isinstance(t0, (ast.Tuple, ast.List))
+                            else [t0])) and s.frame is afr]
             def attempt(s):
                 v = s.ast.value
-                if not isinstance(v, ast.Call):
+                if not isinstance(v, ast.Call) or not isinstance(
+                        s.ast.targets[0], ast.Name):
                     return False
                 ap = common.applied_call(e, s.ctx, v)
                 fnx = ap[0] if ap else v.func
                 return isinstance(fnx, ast.Attribute) and \
                     fnx.attr == 'server_attempt'
             ok = len(srcs) >= 1 and all(attempt(s) for s in srcs)
+            if not ok and srcs:
+                # `done, outcome = self._exchange(arg)` with tagged tuple
+                # returns: the returns whose tag contradicts what is known
+                # at the callback do not reach it
+                st = fx.at(n) or frozenset()
+                good = True
+                seen_any = False
+                for s2 in srcs:
+                    tg = s2.ast.targets[0]
+                    if not (isinstance(tg, (ast.Tuple, ast.List)) and
+                            isinstance(s2.ast.value, ast.Call)):
+                        good = False
+                        break
+                    idx = [k for k, t in enumerate(tg.elts)
+                           if isinstance(t, ast.Name) and t.id == a.id]
+                    vals = common.values_of(g, s2.ast.value, s2.frame)
+                    if not idx or (len(vals) == 1 and
+                                   vals[0][0] is s2.ast.value):
+                        good = False
+                        break
+                    for v, vf in vals:
+                        if not (isinstance(v, ast.Tuple) and
+                                len(v.elts) == len(tg.elts)):
+                            good = False
+                            break
+                        dead = False
+                        for k, t in enumerate(tg.elts):
+                            if k == idx[0] or not isinstance(t, ast.Name) or \
+                                    not isinstance(v.elts[k], ast.Constant):
+                                continue
+                            tp = path_of(t, s2.frame)
+                            truth = bool(v.elts[k].value)
+                            if holds(st, (not truth, tp)):
+                                dead = True
+                        if dead:
+                            continue
+                        seen_any = True
+                        x = v.elts[idx[0]]
+                        ap = common.applied_call(e, vf.ctx, x) if isinstance(
+                            x, ast.Call) else None
+                        fnx = ap[0] if ap else (x.func if isinstance(
+                            x, ast.Call) else None)
+                        if not (isinstance(fnx, ast.Attribute) and
+                                fnx.attr == 'server_attempt'):
+                            good = False
+                ok = good and seen_any
         rep.evaluations += 1
         rep.check(ok, 'R8.6', SERVER + '.' + name,
                   'credentials passed to the AUTH callback are the result '
